@@ -158,9 +158,10 @@ BindingsOf(us, a, i) ==
 \* ... with their use counts (declaration + references, as Var.Uses)
 UsesOf(a, b) == Cardinality({k \in DOMAIN a.kr : a.kr[k] = b[1] /\ a.es[k][3] = b[2]})
 \* everything referenced from the subtree of i that i does not bind: <<binding scope (0 free), keep name>>
+\* (bindings of scopes *below* i are declared there and never reach i's list - the code does not avoid them)
 UndeclaredOf(us, a, i) ==
-  LET own == OwnScopes(us, a.fs, i) IN
-  {<<a.kr[k], a.es[k][3]>> : k \in {j \in DOMAIN a.kr : IsUnder(us, a.es[j][4], i) /\ a.kr[j] \notin own}}
+  LET below == UNION {OwnScopes(us, a.fs, j) : j \in {u \in DOMAIN us : IsUnder(us, u, i)}} IN
+  {<<a.kr[k], a.es[k][3]>> : k \in {j \in DOMAIN a.kr : IsUnder(us, a.es[j][4], i) /\ a.kr[j] \notin below}}
 
 \* What the flag is MEANT to be when unit i is entered (js.go: rename = !HasWith of the *function* being minified,
 \* restored on exit; blocks inherit the flag of the function they are in; the top level starts with renaming on).
